@@ -190,3 +190,14 @@ pub fn pattern_diff(p1: &str, p2: &str) -> Result<Option<(String, bool)>, String
         }
     }
 }
+
+/// Larger inputs: 5..=14 derivation steps, fresh words up to 9 symbols.
+pub fn case_strategy_large(pools: &'static [&'static str], w: OpWeights, fix: fn(Cfg) -> Cfg) -> BoxedStrategy<Case> {
+    (crate::gen::program_strategy_sized(pools, true, w, 5, 14, 6, 9), cfg_strategy())
+        .prop_map(move |(p, cfg)| {
+            let mut c = Case::new(p.interpret(), fix(cfg));
+            c.extra = json!({"pool": p.pool_name(), "size": "large"});
+            c
+        })
+        .boxed()
+}
